@@ -27,6 +27,7 @@ func runC09(c *eng.Ctx) {
 	ruleReadPathSkipsDeletedSegments(c)
 	c.Rule("R01.8", "K5")
 	ruleRecoveredBookkeepingPairs(c)
+	ruleRecoveredEntryIsTheLastAnswer(c)
 	c.Rule("R09.7", "K1")
 	ruleCleanAlwaysRunsAPass(c)
 	c.Rule("R01.9", "K5")
